@@ -31,9 +31,9 @@ pub(crate) fn crypto_scalarmult_curve25519(
     n: &[u8; CRYPTO_SCALARMULT_CURVE25519_SCALARBYTES],
     p: &[u8; CRYPTO_SCALARMULT_CURVE25519_BYTES],
 ) {
-    let sk = Scalar::from_bytes_mod_order(clamp(n));
-    let pk = MontgomeryPoint(*p);
-    let shared_secret = sk * pk;
+    // the clamped scalar must not be reduced modulo the group order: the
+    // point may lie on the twist or carry a small-order component
+    let shared_secret = MontgomeryPoint(*p).mul_clamped(*n);
 
     q.copy_from_slice(shared_secret.as_bytes());
 }
